@@ -1,23 +1,30 @@
+// Command gen/c19 prints coq/Gen/C19Facts.v from the /repo working tree (terms, never verdicts).
 package main
 
 import (
 	"fmt"
 	"go/ast"
 	"strings"
+
+	. "verifharness/genlib"
 )
 
-func init() { generators["c19"] = genC19 }
+func main() {
+	repo := Repo()
+	Header(repo)
+	genC19(repo)
+}
 
 func genC19(repo string) {
-	keeper := parseDir(repo + "/x/evm/keeper")
-	sdb := parseDir(repo + "/x/evm/statedb")
-	kf := funcs(keeper)
-	sf := funcs(sdb)
+	keeper := ParseDir(repo + "/x/evm/keeper")
+	sdb := ParseDir(repo + "/x/evm/statedb")
+	kf := Funcs(keeper)
+	sf := Funcs(sdb)
 
 	type site struct{ fn, arg, base string }
 	var sites []site
 	for _, fl := range keeper {
-		for _, d := range fl.f.Decls {
+		for _, d := range fl.F.Decls {
 			fd, ok := d.(*ast.FuncDecl)
 			if !ok || fd.Body == nil {
 				continue
@@ -31,7 +38,7 @@ func genC19(repo string) {
 				if !ok || sel.Sel.Name != "updateBlockBloom" || len(call.Args) != 3 {
 					return true
 				}
-				arg := nospace(call.Args[2])
+				arg := Nospace(call.Args[2])
 				base := "BaseUnknown"
 				switch arg {
 				case "uint64(txConfig.LogIndex)":
@@ -63,26 +70,26 @@ func genC19(repo string) {
 	// StateDB.AddLog formula
 	addlog := false
 	if fd := sf["AddLog"]; fd != nil && fd.Body != nil {
-		body := nospace(fd.Body)
+		body := Nospace(fd.Body)
 		addlog = strings.Contains(body, "log.Index=s.txConfig.LogIndex+uint(len(s.logs))") &&
 			strings.Contains(body, "log.TxIndex=s.txConfig.TxIndex")
 	}
 	// Keeper.TxConfig reads the transient counters
 	cfg := false
 	if fd := kf["TxConfig"]; fd != nil && fd.Body != nil {
-		body := nospace(fd.Body)
+		body := Nospace(fd.Body)
 		cfg = strings.Contains(body, "TxIndex:uint(k.EvmState.BlockTxIndex.GetOr(ctx,0))") &&
 			strings.Contains(body, "LogIndex:uint(k.EvmState.BlockLogSize.GetOr(ctx,0))")
 	}
 	// EthereumTx increments the tx index at its end
 	incr := false
 	if fd := kf["EthereumTx"]; fd != nil && fd.Body != nil {
-		incr = strings.Contains(nospace(fd.Body), "k.EvmState.BlockTxIndex.Set(ctx,uint64(txConfig.TxIndex)+1)")
+		incr = strings.Contains(Nospace(fd.Body), "k.EvmState.BlockTxIndex.Set(ctx,uint64(txConfig.TxIndex)+1)")
 	}
 	// updateBlockBloom sets BlockLogSize := logIndex + len(logs) when there are logs
 	form := false
 	if fd := kf["updateBlockBloom"]; fd != nil && fd.Body != nil {
-		body := nospace(fd.Body)
+		body := Nospace(fd.Body)
 		form = strings.Contains(body, "iflen(evmResp.Logs)>0{") &&
 			strings.Contains(body, "k.EvmState.BlockLogSize.Set(ctx,logIndex+uint64(len(logs)))") &&
 			strings.Contains(body, "k.EvmState.BlockBloom.Set(ctx,k.EvmState.CalcBloomFromLogs(ctx,logs).Bytes())")
@@ -94,7 +101,7 @@ func genC19(repo string) {
 	fmt.Printf("  s_eth := %s;\n  s_deploy := %s;\n  s_conv_coin := %s;\n  s_conv_erc20 := %s;\n",
 		get("EthereumTx"), get("deployERC20ForBankCoin"), get("convertCoinToEvmBornCoin"), get("convertCoinToEvmBornERC20"))
 	fmt.Printf("  addlog_index_from_cfg := %s;\n  cfg_reads_transient := %s;\n  txindex_incremented := %s;\n  logsize_set_formula := %s;\n  n_call_sites := %d |}.\n",
-		coqBool(addlog), coqBool(cfg), coqBool(incr), coqBool(form), len(sites))
+		CoqBool(addlog), CoqBool(cfg), CoqBool(incr), CoqBool(form), len(sites))
 	fmt.Println("(* call sites found: function, argument expression, classification *)")
 	fmt.Println("Definition call_sites : list (string * string * base) := [")
 	for i, s := range sites {
@@ -102,7 +109,7 @@ func genC19(repo string) {
 		if i == len(sites)-1 {
 			sep = ""
 		}
-		fmt.Printf("  (%s, %s, %s)%s\n", coqString(s.fn), coqString(s.arg), s.base, sep)
+		fmt.Printf("  (%s, %s, %s)%s\n", CoqString(s.fn), CoqString(s.arg), s.base, sep)
 	}
 	fmt.Println("].")
 }
@@ -118,7 +125,7 @@ func txConfigTakenBeforeExecution(fd *ast.FuncDecl) bool {
 			for i, l := range x.Lhs {
 				if id, ok := l.(*ast.Ident); ok && id.Name == "txConfig" && i < len(x.Rhs) {
 					nAssign++
-					if strings.HasPrefix(nospace(x.Rhs[i]), "k.TxConfig(ctx,") && assignPos < 0 {
+					if strings.HasPrefix(Nospace(x.Rhs[i]), "k.TxConfig(ctx,") && assignPos < 0 {
 						assignPos = int(x.Pos())
 					}
 				}
